@@ -3,6 +3,8 @@ package rules
 import (
 	"fmt"
 	"go/token"
+	"go/types"
+	"sort"
 	"strings"
 
 	"verifchk/internal/an"
@@ -28,6 +30,7 @@ func runC08(c *an.Ctx) {
 	r08f(c)
 	pendingResetRule(c, "R08g")
 	pendingMutationRule(c, "R08h")
+	r08i(c)
 }
 
 func r08a(c *an.Ctx) {
@@ -720,4 +723,76 @@ func pendingMutationRule(c *an.Ctx, rule string) {
 				"entries leave the pending-await structure only after AwaitAll returned for that very (moment, weight) entry: deleting anything else (a whole moment, another weight) forgets calls that are still running - they are never collected and teardown cannot cancel them")
 		}
 	})
+}
+
+// R08i: Call.Start keeps the state of the started invocation (the await channel, the cancel function) in the Call
+// object itself. "Each started call is collected exactly once, or cancelled" therefore needs one Call object per
+// start: a call role that hands out the same object again has the pending start's channel overwritten by the next
+// Start - the first invocation is never collected and never cancelled.
+func r08i(c *an.Ctx) {
+	c.Rule("R08i", "a call role builds a new Call for every hook lookup (Call.Start keeps per-start state in the object)", 2)
+	start := c.MustFn("core/workflow/callable", "Call.Start")
+	if start == nil {
+		return
+	}
+	perStart := 0
+	an.Instrs(start, func(in ssa.Instruction) {
+		if st, ok := in.(*ssa.Store); ok {
+			if fa, isFA := st.Addr.(*ssa.FieldAddr); isFA && types.Identical(fa.X.Type(), start.Params[0].Type()) {
+				perStart++
+			}
+		}
+	})
+	for _, name := range []string{"callRole.GetHooksMapForTrigger", "callRole.GetAllHooks"} {
+		fn := c.MustFn("core/workflow", name)
+		if fn == nil {
+			continue
+		}
+		c.Subject()
+		var bad []string
+		n := 0
+		var fresh func(v ssa.Value, depth int) bool
+		fresh = func(v ssa.Value, depth int) bool {
+			if depth > 6 {
+				return false
+			}
+			switch x := v.(type) {
+			case *ssa.Call:
+				cal := x.Call.StaticCallee()
+				return cal != nil && cal.Name() == "NewCall" && cal.Pkg != nil && strings.HasSuffix(cal.Pkg.Pkg.Path(), "core/workflow/callable")
+			case *ssa.Phi:
+				for _, e := range x.Edges {
+					if !fresh(e, depth+1) {
+						return false
+					}
+				}
+				return len(x.Edges) > 0
+			case *ssa.UnOp:
+				if al, ok := x.X.(*ssa.Alloc); ok && x.Op == token.MUL {
+					sts := an.ReachingStores(x)
+					for _, st := range sts {
+						if !fresh(st.Val, depth+1) {
+							return false
+						}
+					}
+					_ = al
+					return len(sts) > 0
+				}
+			}
+			return false
+		}
+		an.Instrs(fn, func(in ssa.Instruction) {
+			mi, ok := in.(*ssa.MakeInterface)
+			if !ok || !strings.HasSuffix(mi.X.Type().String(), "core/workflow/callable.Call") {
+				return
+			}
+			n++
+			if perStart > 0 && !fresh(mi.X, 0) {
+				bad = append(bad, c.PosStr(mi.Pos()))
+			}
+		})
+		sort.Strings(bad)
+		c.Ob("(*core/workflow."+strings.Replace(name, ".", ").", 1)+"|fresh-call-per-lookup", fn.Pos(), len(bad) == 0 && n > 0,
+			"the Call handed out as a hook at %v is not built by NewCall in this lookup (%d hook values examined; Call.Start writes %d per-start fields of its receiver): a second Start of the remembered object overwrites the await channel and cancel function of a start that is still pending, which is then neither collected nor cancelled", bad, n, perStart)
+	}
 }
